@@ -71,6 +71,7 @@ type Follower struct {
 	raisedLast  uint8     // raised in the hardware phase of the most recent cycle
 	raisedAt    [16]uint8 // raisedAt[k]: requests raised after k cycles of the unit had completed
 	enableAfter bool
+	lastKind    UnitKind // kind of the unit in flight or just ended
 	wasHalted   bool
 	partial     bool
 	skipCompare bool
@@ -210,6 +211,7 @@ func (f *Follower) begin() bool {
 			return false
 		}
 	}
+	f.lastKind = f.kind
 	return true
 }
 
